@@ -24,9 +24,9 @@ import (
 //
 // m64: [w key] -> [ok ix] through the VerifMatch64 hook.
 func init() {
-	hx.Register(&hx.Stream{Name: "c15", Gen: genC15, Run: runC15})
+	hx.Register(&hx.Stream{Name: "c15", Gen: genC15, Run: runC15, Shrink: shrinkC15, Describe: describeC15})
 	hx.Register(&hx.Stream{Name: "m64", Gen: genM64, Run: runM64})
-	hx.Register(&hx.Stream{Name: "c15big", Gen: genC15Big, Run: runC15Big})
+	hx.Register(&hx.Stream{Name: "c15big", Gen: genC15Big, Run: runC15Big, Shrink: shrinkC15Big, Describe: describeC15Big})
 }
 
 func c15Probe(out *hx.Nums, t *transp.Table, h uint64, ply Depth) {
